@@ -90,7 +90,7 @@ Qed.
 Lemma step_valid l o : valid_items l = true -> op_valid o = true ->
   valid_items (fst (step_s idn l o)) = true.
 Proof.
-  intros Hl Ho. destruct o as [k v|k v|k|k d| |k d|u|u|u| |]; cbn [step_s op_valid] in *.
+  intros Hl Ho. destruct o as [k v|k v|k|k d| |k d|u|u|u| | |]; cbn [step_s op_valid] in *.
   - apply andb_true_iff in Ho as [Hk Hv]. cbn [fst]. apply valid_setitem; assumption.
   - apply andb_true_iff in Ho as [Hk Hv]. cbn [fst]. rewrite valid_app, Hl. cbn [valid_items forallb fst snd andb]. rewrite Hk, Hv. reflexivity.
   - destruct (contains_s idn k l); cbn [fst]; [apply valid_filter|]; exact Hl.
@@ -102,6 +102,7 @@ Proof.
   - cbn [fst]. apply valid_update; assumption.
   - cbn [fst]. apply valid_update_md; [exact Hl|exact Ho|]. intros k Hk. exact (valid_in_fst u k Ho Hk).
   - cbn [fst]. rewrite valid_app, Hl, Ho. reflexivity.
+  - cbn [fst]. rewrite valid_app, Hl. reflexivity.
   - reflexivity.
   - exact Hl.
 Qed.
